@@ -61,10 +61,12 @@ U_Smoke(zz) == {
 
 \* -------------------------------------------------------------------- C06
 \* [pre: Int(1), d: Data(mode), post: Int(1)] for every sizing mode, class search window
+\* a size that depends on WHERE the field begins (padding up to a multiple of 4): lambda pkt, offset, **k: -offset % 4
+PadLam == Lam(EBin("mod", EUn("neg", EOff), EC(4)))
 SizedModes == {SzConst(0), SzConst(1), SzConst(2), SzField("pre"),
                Defer(EBin("mul", EF("pre"), EC(2))), Defer(EBin("sub", EF("pre"), EC(1))),
                Lam(EBin("add", EF("pre"), EC(1))), Lam(EBin("sub", EF("pre"), EC(2))),
-               Lam(EBin("sub", ERest, EC(1))),
+               Lam(EBin("sub", ERest, EC(1))), PadLam,
                Defer(EBin("add", EC(1), EBin("floordiv", EC(2), EF("pre")))),      \* raises for pre = 0, operands left behind
                Defer(EBin("lshift", EC(1), EF("pre"))), Defer(EBin("rshift", EC(4), EF("pre"))), Defer(EBin("mod", EC(5), EF("pre")))}
 MarkerModes(b) == {SzMarker(b, i, c) : i \in BOOLEAN, c \in BOOLEAN} \ {SzMarker(b, TRUE, FALSE)}
@@ -501,7 +503,7 @@ NoBegins(d) == \A c \in DOMAIN d.prog : \A i \in 1..Len(d.prog[c].fields) :
                   LET f == d.prog[c].fields[i] IN
                   ~UsesBegins(f.mv) /\ d.prog[c].opts.align = 0 /\ (f.k = "Rep" => f.aligned = 0)
 NoRawCallable0(d) == \A c \in DOMAIN d.prog : \A i \in 1..Len(d.prog[c].fields) :
-                  LET f == d.prog[c].fields[i] IN ~(f.k = "Data" /\ f.size = Lam(EBin("sub", ERest, EC(1))))
+                  LET f == d.prog[c].fields[i] IN ~(f.k = "Data" /\ f.size \in {Lam(EBin("sub", ERest, EC(1))), PadLam})
 NoRawCallable(d) == NoRawCallable0(d)
 \* fields that consume nothing at the very end of the input: a placed placeholder, an empty byte string placed with at(),
 \* a counted sequence of empty elements
